@@ -170,6 +170,10 @@ func (w *World) NewTensor(name string, dims []sym.Poly, elem sym.Expr, rng Ival,
 	ds.Len = len(dims)
 	interp.Store(p.C.Fields[w.A.FDims], ds)
 	interp.Store(p.C.Fields[w.A.FData], interp.OpaqueV{Why: "tensor data of " + name})
+	if len(dims) == 0 {
+		// the data of a scalar tensor is its one float64: code may legitimately unbox it
+		interp.Store(p.C.Fields[w.A.FData], interp.IfaceV{T: types.Typ[types.Float64], V: interp.FloatV{E: elem}})
+	}
 	if gctx == nil {
 		gctx = interp.NilV{}
 	}
